@@ -1,4 +1,5 @@
 import BSModel.Proofs.EncodingIn
+import BSModel.Proofs.EncodingDecl
 import BSModel.Gen.EncodingIn
 /-! # C07 — encoding detection follows the documented precedence and decodes exactly
 
@@ -384,5 +385,117 @@ theorem declared_reported (C : Codecs) (a : Args) (b : Bytes) :
   · cases h : a.isHtml <;> rfl
   · rw [hb]
     cases h : a.isHtml <;> rfl
+
+/-! ### the declaration matcher on the shapes the property names (PARTIAL)
+
+Full statement wanted: `findDeclared` = group 1 of Python's `re` search of the two patterns
+(`xml_encoding`, `html_meta`, bytes versions, `re.I`, the two `endpos` windows) for EVERY byte
+string. That needs a semantics of the regex engine; `findDeclared` is a hand-written matcher following
+the engine's backtracking order and is tied to the real regexes by correspondence only (token soups,
+mutated declarations, window boundaries). Proved here: what it returns on well-formed declarations. -/
+
+/-- `<?xml … encoding="NAME"?>` at the start (after optional white space), within the first 1024
+    bytes, the line ending right after it or continuing without `=`: the declared encoding is NAME,
+    lower-cased — for XML and for HTML documents alike. -/
+theorem declared_of_wellformed_xml_partial (ws pre name restLine tail : Bytes) (q1 q2 : Nat) (isHtml : Bool)
+    (hws : ∀ c ∈ ws, isSpace c = true) (hpre : ∀ c ∈ pre, c ≠ 10)
+    (hq1 : isQuote q1 = true) (hq2 : isQuote q2 = true) (hne : name ≠ [])
+    (hn : ∀ c ∈ name, isQuote c = false ∧ c ≠ 61 ∧ c ≠ 10)
+    (hr : ∀ c ∈ restLine, c ≠ 61 ∧ c ≠ 10)
+    (ht : tail = [] ∨ ∃ r, tail = 10 :: r)
+    (hlen : (ws ++ 60 :: 63 :: (pre ++ (litEncodingEq ++ q1 :: (name ++ q2 :: 63 :: 62 :: restLine)))).length ≤ 1024) :
+    findDeclared (ws ++ 60 :: 63 :: (pre ++ (litEncodingEq ++ q1 :: (name ++ q2 :: 63 :: 62 :: restLine))) ++ tail) isHtml
+      = some (lower (asciiReplace name)) := by
+  have hne' : name.isEmpty = false := by cases name <;> simp_all
+  unfold findDeclared
+  rw [xmlMatch_decl ws pre name restLine tail q1 q2 hws hpre hq1 hq2 hn hr ht hlen]
+  simp [hne']
+
+example : findDeclared (ofS "<?xml version=\"1.0\" encoding=\"KOI8-R\"?>\n<a/>") false = some (ofS "koi8-r") := by decide
+
+/-- `<meta … charset=NAME…>` (covers `<meta charset="NAME">`, unquoted, `/>`-closed, and
+    `<meta http-equiv=… content="text/html; charset=NAME">`): no XML declaration in front, every
+    earlier `<` opens something that is visibly not `<meta`, the tag lies within the first 2048 bytes,
+    NAME has no closing-class character / white space / `=`, and nothing with `=` follows before `>`. -/
+theorem declared_of_wellformed_meta_partial (pre mid qs name close rest : Bytes) (m0 : Nat)
+    (hxml : xmlMatch (pre ++ 60 :: (litMeta ++ m0 :: (mid ++ (litCharset ++ 61 :: (qs ++ (name ++ (close ++ [62])))))) ++ rest) = none)
+    (hpre : tagsNotMeta pre = true)
+    (hm0 : m0 ≠ 62) (hmid : ∀ c ∈ mid, c ≠ 62)
+    (hqs : qs = [] ∨ ∃ q, qs = [q] ∧ isQuote q = true) (hne : name ≠ [])
+    (hn : ∀ c ∈ name, isTerm c = false ∧ isSpace c = false ∧ c ≠ 61)
+    (hclose : ∀ c ∈ close, c ≠ 61 ∧ c ≠ 62)
+    (hterm : close = [] ∨ ∃ t r, close = t :: r ∧ isTerm t = true)
+    (hlen : (pre ++ 60 :: (litMeta ++ m0 :: (mid ++ (litCharset ++ 61 :: (qs ++ (name ++ (close ++ [62]))))))).length ≤ 2048) :
+    findDeclared (pre ++ 60 :: (litMeta ++ m0 :: (mid ++ (litCharset ++ 61 :: (qs ++ (name ++ (close ++ [62])))))) ++ rest) true
+      = some (lower (asciiReplace name)) := by
+  have hne' : name.isEmpty = false := by cases name <;> simp_all
+  unfold findDeclared
+  rw [hxml]
+  simp only [if_true]
+  have hle : (pre ++ 60 :: (litMeta ++ m0 :: (mid ++ (litCharset ++ 61 :: (qs ++ (name ++ (close ++ [62]))))))).length
+      ≤ max 2048 ((pre ++ 60 :: (litMeta ++ m0 :: (mid ++ (litCharset ++ 61 :: (qs ++ (name ++ (close ++ [62])))))) ++ rest).length / 20) :=
+    Nat.le_trans hlen (Nat.le_max_left _ _)
+  rw [take_append_le _ _ _ hle]
+  generalize rest.take _ = rest'
+  have hre : pre ++ 60 :: (litMeta ++ m0 :: (mid ++ (litCharset ++ 61 :: (qs ++ (name ++ (close ++ [62])))))) ++ rest'
+      = pre ++ 60 :: (litMeta ++ m0 :: (mid ++ (litCharset ++ 61 :: (qs ++ (name ++ (close ++ 62 :: rest')))))) := by
+    simp [List.append_assoc]
+  rw [hre, htmlSearch_skip pre _ hpre, htmlSearch]
+  simp only [beq_self_eq_true, if_true]
+  rw [metaAt_decl m0 mid qs name close rest' hm0 hmid hqs hne hn hclose hterm]
+  simp [hne']
+
+example : findDeclared (ofS "<html><head><meta http-equiv=\"Content-Type\" content=\"text/html; charset=Shift_JIS\"></head>") true
+    = some (ofS "shift_jis") := by decide
+example : findDeclared (ofS "<html><head><meta charset='x-sjis' /></head>") true = some (ofS "x-sjis") := by decide
+/-- in an XML document a `<meta>` declaration is not looked at -/
+example : findDeclared (ofS "<html><head><meta charset='x-sjis' /></head>") false = none := by decide
+
+/-- so declared_html_encoding reports a well-formed `<meta>` declaration whatever the arguments,
+    whatever encoding wins and whatever the codecs do (false of the unrepaired code) -/
+theorem declared_html_encoding_of_meta_partial (C : Codecs) (a : Args) (doc name : Bytes) (ha : a.isHtml = true)
+    (hbom : stripBom doc = (doc, none)) (hd : findDeclared doc true = some (lower (asciiReplace name))) :
+    (dammit C a (.bytes doc)).declaredHtml = some (lower (asciiReplace name)) := by
+  rw [declared_reported, ha, hbom]
+  simpa using hd
+
+/-! ## non-vacuity: a toy codec oracle and instances of the hypotheses above -/
+
+/-- utf-8 and ascii exist and decode (strictly) exactly the 7-bit strings -/
+def toy : Codecs where
+  codecExists n := n == utf8 || n == ascii
+  decodeStrict n b := if (n == utf8 || n == ascii) && b.all (· < 128) then some b else none
+  decodeReplace n b := if n == utf8 || n == ascii then some (b.map fun c => if c < 128 then c else 0xFFFD) else none
+
+-- clean: first candidate wins, no flag
+example : ((dammit toy {} (.bytes [65])).text, (dammit toy {} (.bytes [65])).originalEncoding,
+    (dammit toy {} (.bytes [65])).containsReplacement) = (some [65], some utf8, false) := by decide
+-- nothing decodes strictly, utf-8 decodes with replacement: flag set (both sides of `replacement_iff` true)
+example : ((dammit toy {} (.bytes [200])).text, (dammit toy {} (.bytes [200])).originalEncoding,
+    (dammit toy {} (.bytes [200])).containsReplacement) = (some [0xFFFD], some utf8, true) := by decide
+-- only "ascii" is left and it is skipped in the replace pass: no text (`no_text_iff`), no flag
+example : ((dammit toy { known := [ascii], exclude := [utf8, ofS "Windows-1252"] } (.bytes [200])).text,
+    (dammit toy { known := [ascii], exclude := [utf8, ofS "Windows-1252"] } (.bytes [200])).containsReplacement)
+    = (none, false) := by decide
+-- a BOM-only document is the empty text, cleanly (false of the unrepaired code)
+example : ((dammit toy {} (.bytes [0xef, 0xbb, 0xbf])).text, (dammit toy {} (.bytes [0xef, 0xbb, 0xbf])).containsReplacement)
+    = (some [], false) := by decide
+-- the hypotheses of `dammit_first_clean` / `utf8_default` / `from_encoding_first` are satisfiable
+example : True := by
+  have := utf8_default toy {} [65] [65] (by decide) rfl rfl rfl (by decide) (by decide) (by decide) (by decide) (by decide)
+  have := from_encoding_first toy [65] (ofS "ASCII") ascii [65] [] (by decide) (by decide) (by decide) (by decide) (by decide)
+  trivial
+-- … and those of the two declaration theorems
+example : True := by
+  have := declared_of_wellformed_meta_partial (ofS "<html><head>") [] [34] (ofS "utf-8") [34] (ofS "</head>") 32
+    (by decide) (by decide) (by decide) (by decide) (Or.inr ⟨34, rfl, by decide⟩) (by decide) (by decide) (by decide)
+    (Or.inr ⟨34, [], rfl, by decide⟩) (by decide)
+  have := declared_of_wellformed_meta_partial (ofS "<!DOCTYPE html>\n<head><title>t</title>") (ofS "http-equiv=\"Content-Type\" content=\"text/html; ")
+    [] (ofS "KOI8-R") [34] (ofS "</head>") 32
+    (by decide) (by decide) (by decide) (by decide) (Or.inl rfl) (by decide) (by decide) (by decide)
+    (Or.inr ⟨34, [], rfl, by decide⟩) (by decide)
+  have := declared_of_wellformed_xml_partial [10, 32] (ofS "xml version=\"1.0\" ") (ofS "Big5") (ofS " ") (ofS "\n<a/>") 34 34 false
+    (by decide) (by decide) (by decide) (by decide) (by decide) (by decide) (by decide) (Or.inr ⟨_, rfl⟩) (by decide)
+  trivial
 
 end BS.Props.C07
